@@ -13,13 +13,13 @@ PROP = dict(
                 "valid cache gives success at once with no request and no write; without a deadline no error is returned and construction succeeds as soon "
                 "as every missing name has succeeded once; with a deadline the call returns no later than the deadline and cannot succeed while a needed "
                 "name keeps failing; a file client fails in the first round; misconfiguration yields an error value; an invalid cache is ignored whole. "
-                "Tied to store.go by scenarios run on the real Store inside a synctest bubble (scripted client or real FileClient, crafted caches, "
+                "Tied to store.go by scenarios run on the real Store inside a synctest bubble (scripted client, real FileClient or the real network client setec.Client over a scripted HTTP transport, crafted caches, "
                 "deadlines inside waits and inside rounds): outcome, every request with its virtual instants, instant of return, cache writes, a probe "
                 "poll and the values served are compared with the model in the kernel."),
     level_note=("Trusted: Coq kernel+VM; differential tie on sampled scenarios; the scripted client honours cancellation at once (a client that "
                 "reacts late delays the return by its own reaction time); deadlines never coincide with another timer (Go picks either branch then); "
                 "struct-tag parsing itself is C20's."),
-    rule=("random NewStore scenarios (1-7 declared names with duplicates, both client kinds, cache absent/empty/syntax error/type error after k valid entries/partial/complete/"
+    rule=("random NewStore scenarios (1-7 declared names with duplicates, three client kinds (scripted StoreClient, real FileClient, real setec.Client over a scripted HTTP transport incl. hanging and slow servers), cache absent/empty/syntax error/type error after k valid entries/partial/complete/"
           "invalid, per-name failure scripts with latencies, deadlines at half-millisecond instants, misconfigurations); one case = one call; "
           "non-trivial if the service was contacted or a cache document was supplied; distinct by input"),
     explain=("setec.NewStore (outcome, requests with virtual instants, instant of return, cache writes, probe poll or values served) differs from the "
